@@ -160,6 +160,23 @@ def elf_object(ctx, stream, cls, little, machine='EM_X86_64', e_type='ET_EXEC', 
     return elf
 
 
+def open_elf(ctx, data):
+    """ELFFile(data), followed by a BYSTANDER: a second file of the same class and byte order but of another machine, OS ABI and file type
+    is opened before the first one is asked anything.  What an ELFFile object reports is decided by its own header; nothing it uses may be
+    shared with (and re-configured by) a file opened later in the same process."""
+    EF = ctx.lib('elf.elffile')
+    elf = EF.ELFFile(ctx.stream(data))
+    m = elf.header['e_machine']
+    other = 8 if (isinstance(m, str) and m == 'EM_ARM') else 40
+    by = Image(elf.elfclass, elf.little_endian, machine=other, e_type=4, osabi=6)
+    by.section('', sh_type=0)
+    by.add_shstrtab()
+    by.segment(p_type=1, p_offset=0, p_filesz=16)
+    ctx.keep = getattr(ctx, 'keep', [])
+    ctx.keep.append(EF.ELFFile(ctx.stream(by.build())))
+    return elf
+
+
 def shdr(**kw):
     """a COMPLETE section header (every field of Elf_Shdr present): harness objects built from a partial header would report a change
     that merely looks at another field as a KeyError - by accident, and just as well for a correct change"""
